@@ -6,7 +6,7 @@ package main
 //
 //	case <n> issue
 //	ca <kind> <signerLife|none> <chainLives> <root 0|1> <defaultTTL s> <maxTTL s>
-//	      kind: self | plug | plug2 | noroot | capchain | nosigner | expired | expiredchain   (how the harness builds it)
+//	      kind: self | plug | plug2 | noroot | capchain | nosigner | expired | expiredchain | future   (how the harness builds it)
 //	      the remaining tokens are the abstract bundle the Lean model reads
 //	na -                                     no CA_TRUSTED_NODE_ACCOUNTS
 //	na <trusted ns/sa list> <k> <id1> <pods1> ... <idk> <podsk>
@@ -20,6 +20,8 @@ package main
 //	reqa <authspec> <csr> <ttl> <imp> <signer> <cluster> <junk>
 //	      the same request authenticated by one REAL authenticator in Server.Authenticators;
 //	      authspec = the tokens of an `authn` line (stream authn, see authn.go) after the word authn
+//	reqm <list of authspecs> <csr> <ttl> <imp> <signer> <cluster> <junk>
+//	      several REAL authenticators in Server.Authenticators, in order, seeing the one request
 //
 // Output lines: `ok`, `ca-ok`/`ca-err`, `na-ok`, and for a request
 //
@@ -66,6 +68,7 @@ import (
 	"istio.io/istio/pilot/pkg/features"
 	"istio.io/istio/pkg/cluster"
 	"istio.io/istio/pkg/kube"
+	"istio.io/istio/pkg/kube/kubetypes"
 	"istio.io/istio/pkg/kube/multicluster"
 	"istio.io/istio/pkg/security"
 	"istio.io/istio/pkg/util/sets"
@@ -343,6 +346,14 @@ func (f *caFixtures) buildCA(kind string, life, chainLife int64, def, max int64)
 		if c, k, err = f.signerCert(f.rootCert, f.rootKey, life); err == nil {
 			bundle = util.NewKeyCertBundleFromPem(c, k, nil, f.rootPem, nil)
 		}
+	case "future":
+		// a signing certificate that is not valid yet (NotBefore one hour ahead): the CA does not look at NotBefore
+		var c, k []byte
+		c, k, err = util.GenCertKeyFromOptions(util.CertOptions{IsCA: true, Org: "Signing CA", ECSigAlg: util.EcdsaSigAlg, SignerCert: f.rootCert,
+			SignerPriv: f.rootKey, NotBefore: time.Now().Add(time.Hour), TTL: time.Duration(life)*time.Second - time.Hour})
+		if err == nil {
+			bundle = util.NewKeyCertBundleFromPem(c, k, nil, f.rootPem, nil)
+		}
 	case "expiredchain":
 		var c, k []byte
 		if c, k, err = f.signerCert(f.rootCert, f.rootKey, life); err == nil {
@@ -422,6 +433,7 @@ func encPods(ps []podSpec) string {
 }
 
 type world struct {
+	hidden  []string // namespaces the clients' object filter hides
 	server  *caserver.Server
 	trusted []string
 	ids     []string
@@ -461,13 +473,30 @@ func parseNA(f []string) (trusted []string, ids []string, pods map[string][]podS
 	return trusted, ids, pods
 }
 
-func newPodClient(pods []podSpec) kube.Client {
+// newPodClient is one cluster's fake API server + client; `hidden` namespaces are filtered out by the
+// client's object filter, as the discovery selectors of the mesh config do.
+func newPodClient(pods []podSpec, hidden []string) kube.Client {
 	var objs []runtime.Object
 	for _, p := range pods {
 		objs = append(objs, p.object())
 	}
 	client := kube.NewFakeClient(objs...)
 	honourPodFieldSelector(client, objs)
+	if len(hidden) > 0 {
+		hide := map[string]bool{}
+		for _, h := range hidden {
+			hide[h] = true
+		}
+		kube.SetObjectFilter(client, kubetypes.NewStaticObjectFilter(func(obj any) bool {
+			switch o := obj.(type) {
+			case string:
+				return !hide[o]
+			case metav1.Object:
+				return !hide[o.GetNamespace()]
+			}
+			return true
+		}))
+	}
 	return client
 }
 
@@ -491,6 +520,10 @@ func (w *worlds) get(f []string) (*world, error) {
 		return x, nil
 	}
 	trusted, ids, pods := parseNA(f)
+	var hidden []string
+	if len(f) >= 2 && f[len(f)-2] == "hide" {
+		hidden = wire.DecList(f[len(f)-1])
+	}
 	set := sets.New[types.NamespacedName]()
 	for _, t := range trusted {
 		ns, sa, _ := strings.Cut(t, "/")
@@ -502,12 +535,12 @@ func (w *worlds) get(f []string) (*world, error) {
 	if err != nil {
 		return nil, err
 	}
-	x := &world{server: srv, trusted: trusted, ids: ids, pods: pods, ctl: ctl, clients: map[string]kube.Client{}, pending: map[string]*pendingUpdate{}, stop: w.stop}
+	x := &world{hidden: hidden, server: srv, trusted: trusted, ids: ids, pods: pods, ctl: ctl, clients: map[string]kube.Client{}, pending: map[string]*pendingUpdate{}, stop: w.stop}
 	if private {
 		x.stop = make(chan struct{})
 	}
 	for _, id := range ids {
-		client := newPodClient(pods[id])
+		client := newPodClient(pods[id], hidden)
 		ctl.Add(cluster.ID(id), client, x.stop)
 		client.RunAndWait(x.stop)
 		x.clients[id] = client
@@ -527,6 +560,15 @@ func (x *world) close() {
 		close(x.stop)
 		x.stop = nil
 	}
+}
+
+func (x *world) isHidden(ns string) bool {
+	for _, h := range x.hidden {
+		if h == ns {
+			return true
+		}
+	}
+	return false
 }
 
 func (x *world) removeID(id string) {
@@ -558,8 +600,42 @@ func (x *world) event(f []string) error {
 			return err
 		}
 		x.pods[id] = append(x.pods[id], p)
-		if x.server.VerifNodeAuthorizerConfigured() {
+		if x.server.VerifNodeAuthorizerConfigured() && !x.isHidden(p.ns) {
 			return waitFor("pod add", func() bool { uid, ok := x.server.VerifPodUID(id, p.ns, p.name); return ok && uid == p.uid })
+		}
+		return nil
+	case len(f) == 4 && f[0] == "pod" && f[1] == "upd":
+		id := wire.Dec(f[2])
+		ps := parsePods(wire.EncList([]string{wire.Dec(f[3])}))
+		if len(ps) != 1 || x.clients[id] == nil {
+			return errors.New("bad pod upd")
+		}
+		p := ps[0]
+		for i, q := range x.pods[id] {
+			if q.ns == p.ns && q.name == p.name {
+				x.pods[id][i] = p
+			}
+		}
+		api := x.clients[id].Kube().CoreV1().Pods(p.ns)
+		if p.failed() {
+			// a pod turning Failed stops matching the informer's field selector: the real API server's
+			// watch then delivers a DELETE (API-server semantics emulated; the fake ignores selectors)
+			if err := api.Delete(context.Background(), p.name, metav1.DeleteOptions{}); err != nil {
+				return err
+			}
+			if x.server.VerifNodeAuthorizerConfigured() {
+				return waitFor("pod failed", func() bool { _, ok := x.server.VerifPodUID(id, p.ns, p.name); return !ok })
+			}
+			return nil
+		}
+		if _, err := api.Update(context.Background(), p.object(), metav1.UpdateOptions{}); err != nil {
+			return err
+		}
+		if x.server.VerifNodeAuthorizerConfigured() && !x.isHidden(p.ns) {
+			return waitFor("pod update", func() bool {
+				sa, node, _, ok := x.server.VerifPodSpec(id, p.ns, p.name)
+				return ok && sa == p.sa && node == p.node
+			})
 		}
 		return nil
 	case len(f) == 5 && f[0] == "pod" && f[1] == "del":
@@ -584,7 +660,7 @@ func (x *world) event(f []string) error {
 	case len(f) == 5 && f[0] == "cl" && f[1] == "upd":
 		id := wire.Dec(f[2])
 		pods := parsePods(f[3])
-		client := newPodClient(pods)
+		client := newPodClient(pods, x.hidden)
 		swaps := x.ctl.VerifUpdate(cluster.ID(id), client, x.stop)
 		x.clients[id] = client
 		if f[4] == "1" {
@@ -623,7 +699,7 @@ func (x *world) event(f []string) error {
 	case len(f) == 4 && f[0] == "cl" && f[1] == "add":
 		id := wire.Dec(f[2])
 		pods := parsePods(f[3])
-		client := newPodClient(pods)
+		client := newPodClient(pods, x.hidden)
 		x.ctl.Add(cluster.ID(id), client, x.stop)
 		client.RunAndWait(x.stop)
 		x.clients[id] = client
@@ -1026,6 +1102,75 @@ func (a reqaSpec) line() []string {
 		strconv.Itoa(a.req.junk)}
 }
 
+// reqmSpec: several REAL authenticators in Server.Authenticators, in the given order (as istiod's chain
+// client certificate, Kubernetes JWT / OIDC, XFCC), seeing the one request.
+type reqmSpec struct {
+	specs [][]string
+	req   reqSpec
+}
+
+func parseReqM(f []string) (reqmSpec, error) {
+	a, err := parseReqA(f)
+	if err != nil {
+		return reqmSpec{}, err
+	}
+	m := reqmSpec{req: a.req}
+	for _, sp := range wire.DecList(f[1]) {
+		m.specs = append(m.specs, strings.Fields(sp))
+	}
+	return m, nil
+}
+
+func (m reqmSpec) line() []string {
+	var l []string
+	for _, sp := range m.specs {
+		l = append(l, strings.Join(sp, " "))
+	}
+	return []string{"reqm", wire.EncList(l), m.req.csr.tok(), strconv.FormatInt(m.req.ttl, 10), m.req.imp, m.req.signer, m.req.cluster,
+		strconv.Itoa(m.req.junk)}
+}
+
+// runM merges the transport-level ingredients of the specs into ONE request context: the metadata of all
+// (each kind uses its own keys; at most one of kube / oidc is present), the peer address of the XFCC
+// spec, the TLS state of the certificate spec.
+func (s *issueSUT) runM(m reqmSpec) (issueResult, error) {
+	if s.authn == nil {
+		s.authn = newAuthnSUT()
+	}
+	base := &prepared{md: metadata.MD{}, hasPeer: true, peerAddr: "10.0.0.9:1234", authInfo: credentials.TLSInfo{}}
+	var auths []security.Authenticator
+	for _, sp := range m.specs {
+		p, err := s.authn.prepare(sp)
+		if err != nil {
+			return issueResult{}, err
+		}
+		if p.rejected {
+			return issueResult{rejected: true}, nil
+		}
+		for k, v := range p.md {
+			base.md[k] = v
+		}
+		switch sp[0] {
+		case "xfcc":
+			base.hasPeer, base.peerAddr = p.hasPeer, p.peerAddr
+		case "cert", "tlscert":
+			base.authInfo = p.authInfo
+			if !p.hasPeer {
+				base.hasPeer = false
+			}
+		}
+		auths = append(auths, p.auth)
+	}
+	delete(base.md, "clusterid")
+	if m.req.cluster != "-" {
+		base.md["clusterid"] = wire.DecList(m.req.cluster)
+	}
+	features.XDSAuth = true
+	security.AuthPlaintext = false
+	_, req, spki := m.req.build(s.keys)
+	return s.runWith(base.grpcContext(), auths, req, spki), nil
+}
+
 // runA sends the request through the real CreateCertificate with the real authenticator; the
 // request's own clusterid metadata is the one the authenticator sees too.
 func (s *issueSUT) runA(a reqaSpec) (issueResult, *prepared, error) {
@@ -1220,6 +1365,19 @@ func (s *issueSUT) apply(f []string) (out string) {
 			return "bad-op"
 		}
 		return s.format(s.run(r))
+	case "reqm":
+		if !s.caOK || s.cur == nil {
+			return "no-ca"
+		}
+		m, err := parseReqM(f)
+		if err != nil {
+			return "bad-op"
+		}
+		res, err := s.runM(m)
+		if err != nil {
+			return "fixture-failed " + wire.Enc(err.Error())
+		}
+		return s.format(res)
 	case "reqa":
 		if !s.caOK || s.cur == nil {
 			return "no-ca"
